@@ -32,7 +32,7 @@ def plan(tier):
                                 'the real driver loop on %d blocks (%s back end selected by init, arbitrary %d-round schedule, arbitrary data%s): returns 1 and every block equals the single-block result%s'
                                 % (nb, name, lowr, ', output buffer == input buffer' if inplace else '', ' under its own tweak' if c == 3 else ''),
                                 defs=dict(base, OB_DRIVER=1, NBLK=nb, DIR=d, INPLACE=inplace, NR=lowr), ll=par_ll(c, v), timeout=1200, fsarray=1300, sanitize=True))
-    return dict(queries=qs, level='model_checking', pre=[pre_ll_diff],
+    return dict(queries=qs, level='model_checking', pre=[pre_engine_canaries, pre_ll_diff],
                 functions=['skinny128/skinny64/mantis _parallel_ecb_init/_encrypt/_decrypt/_crypt (driver files, native)', '_skinny128_parallel_{en,de}crypt_vec128/vec256, _skinny64_parallel_{en,de}crypt_vec128, _mantis_parallel_crypt_vec128 (clang IR)',
                            'single-block functions as oracle'],
                 bounds={'batch functions': 'full depth (56/40 rounds; Mantis 5 and 8 quick, 5..8 thorough), arbitrary schedule, arbitrary data and tweak array',
